@@ -29,6 +29,7 @@ def run(ctx):
     stream.zero_result_of_empty_request(ctx, P)
     stream.stage_buffer_advanced_by_what_was_copied(ctx, P)
     stream.grown_stage_emptied_on_failed_fill(ctx, P)
+    stream.finished_flag_set_after_the_writes(ctx, P)
     stream.eof_helper_not_leaked(ctx, P)
     stream.output_buffer_index_guarded(ctx, P)
     stream.no_multi_octet_match_on_transient_slice(ctx, P)
